@@ -211,3 +211,32 @@ def c16_jacobi_inplace(ctx, form, which):
     fresh = darsia.Jacobi(maxiter=1, dim=dim, mass_coeff=m.copy(), diffusion_coeff=k.copy())
     ctx.ensure("after an in-place change of the coefficient arrays the used solver == a fresh solver with the new values", eq(used(x0, rhs, h=h), fresh(x0, rhs, h=h)))
     ctx.ensure("and equals the Jacobi sweep for the coefficients as they are at THIS call", eq(fresh(x0, rhs, h=h), jacobi_spec(x0, rhs, m, k, h, dim, 1)))
+
+
+@ob("C16.wasserstein_reuse", kind="B", cases=product_cases(method=("newton", "bregman", "bregman-adaptive", "bregman-anderson"), ls=("direct", "amg")), funcs=FUNCS, samples=(1, 2), tol=1e-9,
+    cite="a Wasserstein distance computed with a re-used solver object depends only on the arguments of that call ... called on successive input pairs",
+    note="bounded: real solvers; an object used on one pair and re-used on a second vs a fresh object on the second pair")
+def c16_wasserstein_reuse(ctx, method, ls):
+    import warnings
+    from contracts.wass_common import base_options, grid_of, images, solver
+    rng = np.random.default_rng(ctx.rng.randrange(1 << 30))
+    shape = (4, 3)
+    grid, h = grid_of(shape)
+    p1, p2 = images(shape, h, rng), images(shape, h, rng)
+    extra = {}
+    m = "newton" if method == "newton" else "bregman"
+    if method == "bregman-adaptive":
+        extra["bregman_update"] = lambda it: it % 3 == 0
+    if method == "bregman-anderson":
+        extra.update(aa_depth=2, aa_restart=3)
+    opts = base_options(num_iter=12, linear_solver=ls, formulation="pressure", **extra)
+    with warnings.catch_warnings():
+        warnings.simplefilter("ignore")
+        used = solver(m, grid, opts)
+        used(*p1)
+        d_used, i_used = used(*p2)
+        fresh = solver(m, grid, opts)
+        d_fresh, i_fresh = fresh(*p2)
+    ctx.ensure("distance of the re-used object == distance of a fresh object", abs(d_used - d_fresh) <= 1e-9 * max(1.0, abs(d_fresh)))
+    ctx.ensure("flux of the re-used object == flux of a fresh object", bool(np.allclose(i_used["flux"], i_fresh["flux"], rtol=1e-8, atol=1e-10)))
+    ctx.ensure("pressure of the re-used object == pressure of a fresh object", bool(np.allclose(i_used["pressure"], i_fresh["pressure"], rtol=1e-7, atol=1e-9)))
